@@ -9,6 +9,9 @@
 //!   L_i(v) = min( argmax_l ( |{u in N_in(v): L_{i-1}(u)=l}| + |{u in N_out(v): L_{i-1}(u)=l}| ) )
 //!             (a neighbour reachable in both directions counts twice; a vertex without neighbours keeps its label)
 //! The implementation adds to PR a tolerance: stop after the first iteration whose L1 change is < tolerance.
+//! CDLP runs the configured number of rounds; stopping earlier is indistinguishable from that only at a
+//! fixed point (L_k == L_{k-1}). A labelling that repeats with period 2 (every bipartite-ish component does)
+//! is NOT one: L_k and L_{k+1} differ, so the result depends on the parity of the configured count.
 
 use crate::prng::{fnv, Prng};
 use crate::{Outcome, Violation};
@@ -67,6 +70,12 @@ pub struct Case {
     pub tolerance: f64,
     pub tol_note: String,
     pub shape: &'static str,
+    /// cdlp: the max_iterations values the case is run with (each one a separate call, judged separately)
+    pub caps: Vec<usize>,
+    /// cdlp on a structured graph: the reference labellings L_0.. of the first `probe` rounds (the round
+    /// counts are chosen from them); fewer than probe+1 entries = the last one is a fixed point
+    pub probe: usize,
+    pub probe_rounds: Vec<Vec<u64>>,
 }
 
 fn gen_graph(r: &mut Prng, n: usize, max_out: u64) -> (Graph, &'static str) {
@@ -112,9 +121,108 @@ fn gen_graph(r: &mut Prng, n: usize, max_out: u64) -> (Graph, &'static str) {
     (Graph { n, ids, edges, base, stride, inv }, if local { "local" } else { "uniform" })
 }
 
+
+/// Structured graphs: disjoint unions of small motifs (single edges, paths, stars, cycles, bicliques, small
+/// random / random bipartite components), one big random bipartite graph, or motifs next to a random part.
+/// On these the synchronous labelling settles within a few rounds — at a fixed point (cycles of odd length,
+/// dense components) or, for everything bipartite-ish (an edge swaps its two labels for ever, a star
+/// alternates between "leaves carry the centre's label" and the reverse), in a period-2 oscillation that
+/// has NO fixed point, so the labelling the statement asks for depends on the configured round count.
+/// The random families of `gen_graph` are one giant component that does neither within the rounds run.
+/// Components are laid over a shuffled index order, so a component's nodes sit in different rayon chunks.
+fn gen_structured(r: &mut Prng, n: usize, few_rounds: bool) -> (Graph, &'static str) {
+    let mut perm: Vec<u64> = (0..n as u64).collect();
+    if r.chance(3, 4) {
+        for i in (1..n).rev() { let j = r.below(i as u64 + 1) as usize; perm.swap(i, j); }
+    }
+    let base = *r.pick(&[0u64, 1, 1000, 1u64 << 33]);
+    let stride = *r.pick(&[1u64, 1, 3]);
+    let ids: Vec<u64> = perm.iter().map(|p| base + p * stride).collect();
+    // where the k-th node of the construction lives in index order
+    let mut slot: Vec<usize> = (0..n).collect();
+    if r.chance(3, 4) {
+        for i in (1..n).rev() { let j = r.below(i as u64 + 1) as usize; slot.swap(i, j); }
+    }
+    let mutual_pct = *r.pick(&[0u64, 0, 20, 50, 100]);
+    // Miri-sized cases can afford only a few rounds: three in four of them draw from the families that
+    // settle (oscillate or reach their fixed point) within three rounds; the slow ones mostly run natively
+    let sub = if few_rounds && r.chance(3, 4) { *r.pick(&[0u64, 1, 2, 4, 8]) } else { r.below(9) };
+    let shape: &'static str = ["matching", "paths3", "stars", "paths", "bicliques", "motifs", "bipartite", "motifs+random", "cliques"][sub as usize];
+    // undirected construction edges over construction positions 0..n
+    let mut und: Vec<(usize, usize)> = vec![];
+    let motif_end = match sub { 6 => 0, 7 => n / 2, _ => n };
+    let mut pos = 0usize;
+    while pos < motif_end {
+        let left = motif_end - pos;
+        // 0 isolated, 1 edge, 2 path, 3 star, 4 cycle, 5 biclique, 6 random bipartite, 7 random, 8 path of 3, 9 clique
+        let kind = match sub {
+            0 => if r.chance(1, 20) { 0 } else { 1 },
+            1 => 8,
+            2 => 3,
+            3 => *r.pick(&[2u64, 2, 1]),
+            4 => 5,
+            8 => *r.pick(&[9u64, 9, 9, 0]),
+            _ => r.below(10),
+        };
+        let mut local: Vec<(usize, usize)> = vec![];
+        let size = match kind {
+            0 => 1,
+            1 => { local.push((0, 1)); 2 }
+            2 | 8 => { let l = if kind == 8 { 3 } else { r.range(3, 6) as usize }; for i in 0..l - 1 { local.push((i, i + 1)); } l }
+            3 => { let k = r.range(2, 6) as usize; for i in 1..=k { local.push((0, i)); } k + 1 }
+            4 => { let l = r.range(3, 6) as usize; for i in 0..l { local.push((i, (i + 1) % l)); } l }
+            5 => { let (a, b) = (r.range(1, 3) as usize, r.range(1, 3) as usize); for i in 0..a { for j in 0..b { local.push((i, a + j)); } } a + b }
+            6 => { let (a, b) = (r.range(2, 5) as usize, r.range(2, 5) as usize); for i in 0..a { for j in 0..b { if r.chance(1, 2) { local.push((i, a + j)); } } } a + b }
+            9 => { let l = r.range(3, 5) as usize; for i in 0..l { for j in i + 1..l { local.push((i, j)); } } l }
+            _ => { let l = r.range(3, 7) as usize; for i in 0..l { for j in i + 1..l { if r.chance(1, 2) { local.push((i, j)); } } } l }
+        };
+        if size > left {
+            // what is left becomes single edges and an isolated node (cliques: isolated nodes, so that the
+            // family keeps its fixed point)
+            if sub != 8 { for i in (0..left - 1).step_by(2) { und.push((pos + i, pos + i + 1)); } }
+            pos = motif_end;
+        } else {
+            for (a, b) in local { und.push((pos + a, pos + b)); }
+            pos += size;
+        }
+    }
+    let mut out: Vec<Vec<usize>> = vec![vec![]; n];
+    let mut edges = vec![];
+    let mut insert = |out: &mut Vec<Vec<usize>>, e: (usize, usize)| {
+        if e.0 != e.1 && !out[e.0].contains(&e.1) { out[e.0].push(e.1); edges.push(e); }
+    };
+    if sub == 6 && n > 1 {
+        // one random bipartite graph over all nodes: side A = the first `a` construction positions
+        let a = (n as u64 * r.range(20, 80) / 100).clamp(1, n as u64 - 1) as usize;
+        let max_k = r.range(1, 3);
+        for u in 0..a {
+            if r.chance(1, 10) { continue; }
+            for _ in 0..r.range(1, max_k) { und.push((u, a + r.below((n - a) as u64) as usize)); }
+        }
+    }
+    if sub == 7 {
+        // the other half: random clustered edges, as in gen_graph's "local" shape
+        let m = n - motif_end;
+        for u in 0..m {
+            if m < 2 || r.chance(1, 4) { continue; }
+            for _ in 0..r.range(1, 2) { let off = r.range(1, 6) as usize % m; und.push((motif_end + u, motif_end + (u + off) % m)); }
+        }
+    }
+    for (a, b) in und {
+        let (u, v) = (slot[a], slot[b]);
+        if r.below(100) < mutual_pct { insert(&mut out, (u, v)); insert(&mut out, (v, u)); }
+        else if r.chance(1, 2) { insert(&mut out, (u, v)); } else { insert(&mut out, (v, u)); }
+    }
+    let mut inv = vec![0u32; n];
+    for (i, p) in perm.iter().enumerate() { inv[*p as usize] = i as u32; }
+    (Graph { n, ids, edges, base, stride, inv }, shape)
+}
+
 impl Case {
     pub fn generate(seed: u64, big: bool) -> Case {
         let kind = match seed % 6 { 0 => Kind::PrCap, 2 => Kind::PrTol, 4 => Kind::PrBoundary, _ => Kind::Cdlp };
+        // every third cdlp case runs on a structured graph (see gen_structured) and with several round counts
+        let structured = seed % 6 == 5;
         let mut r = Prng::new(seed, if big { 0xC27B } else { 0xC27A });
         let n = if big {
             match r.below(8) {
@@ -131,14 +239,37 @@ impl Case {
             1000 + r.below(4) as usize // at the threshold: the smallest graphs that take the parallel branch
         };
         let max_out = if big { 5 } else { 1 + r.below(2) };
-        let (g, shape) = gen_graph(&mut r, n, max_out);
+        let (g, shape) = if structured { gen_structured(&mut r, n, !big) } else { gen_graph(&mut r, n, max_out) };
         let damping = match r.below(5) { 0 => 0.85, 1 => 0.5, 2 => 0.99, 3 => 0.85, _ => 0.05 + 0.9 * r.unit() };
         let dangling = r.chance(1, 2);
         let iterations = if kind == Kind::Cdlp {
             if big { r.range(1, 12) } else { 2 }
         } else if big { r.range(2, 30) } else { r.range(2, 4) } as usize;
         let iterations = iterations as usize;
-        let mut c = Case { seed, big, kind, g, damping, dangling, iterations, tolerance: 0.0, tol_note: "0 (iteration cap only)".into(), shape };
+        // cdlp round counts. A labelling that oscillates has no fixed point, so what the statement asks for
+        // depends on the parity of the configured count: consecutive counts (both parities) are run. On the
+        // structured graphs they are placed ON the round at which the sequential labelling settles (first
+        // repeats, with period 1 or 2) — the way the page_rank boundary kind places the tolerance on an
+        // iteration's change: that is where a stopping rule decides. Natively also a random pair and a long
+        // run around the crate's default of 100.
+        let (mut probe, mut probe_rounds) = (0usize, vec![]);
+        let caps: Vec<usize> = if kind != Kind::Cdlp { vec![] }
+            else if !structured { if big { vec![iterations, iterations + 1] } else { vec![iterations] } }
+            else {
+                probe = if big { 40 } else { 4 };
+                probe_rounds = cdlp_reference_rounds(&g, probe);
+                let settle = if probe_rounds.len() - 1 < probe { Some(probe_rounds.len() - 1) } else { (2..probe_rounds.len()).find(|&k| probe_rounds[k] == probe_rounds[k - 2]) };
+                if big {
+                    let s = settle.unwrap_or(20).max(1);
+                    let mut c = vec![s, s + 1, iterations, iterations + 1, *r.pick(&[30usize, 51, 99, 100, 101])];
+                    c.sort(); c.dedup(); c
+                } else {
+                    // Miri-sized: at most 3 + 4 rounds
+                    let s = settle.unwrap_or(3).clamp(2, 3);
+                    vec![s, s + 1]
+                }
+            };
+        let mut c = Case { seed, big, kind, g, damping, dangling, iterations, tolerance: 0.0, tol_note: "0 (iteration cap only)".into(), shape, caps, probe, probe_rounds };
         if kind == Kind::PrTol || kind == Kind::PrBoundary {
             // choose the tolerance from the sequential reference's own L1 changes
             let (_, diffs) = pr_reference(&c.g, c.damping, c.dangling, c.iterations);
@@ -159,9 +290,9 @@ impl Case {
     pub fn describe(&self) -> String {
         let dang = self.g.out_degrees().iter().filter(|d| **d == 0).count();
         format!(
-            "{{\"case\":{},\"class\":\"{}\",\"algorithm\":\"{}\",\"kind\":\"{:?}\",\"n\":{},\"edges\":{},\"dangling_nodes\":{},\"shape\":\"{}\",\"id0\":{},\"damping\":{:?},\"dangling_redistribution\":{},\"iterations\":{},\"tolerance\":{:?},\"tolerance_rule\":\"{}\"}}",
+            "{{\"case\":{},\"class\":\"{}\",\"algorithm\":\"{}\",\"kind\":\"{:?}\",\"n\":{},\"edges\":{},\"dangling_nodes\":{},\"shape\":\"{}\",\"id0\":{},\"damping\":{:?},\"dangling_redistribution\":{},\"iterations\":{},\"max_iterations\":{:?},\"tolerance\":{:?},\"tolerance_rule\":\"{}\"}}",
             self.seed, if self.big { "big" } else { "small" }, if self.kind == Kind::Cdlp { "cdlp" } else { "page_rank" }, self.kind,
-            self.g.n, self.g.edges.len(), dang, self.shape, self.g.ids.first().copied().unwrap_or(0), self.damping, self.dangling, self.iterations, self.tolerance, self.tol_note
+            self.g.n, self.g.edges.len(), dang, self.shape, self.g.ids.first().copied().unwrap_or(0), self.damping, self.dangling, self.iterations, self.caps, self.tolerance, self.tol_note
         )
     }
 }
@@ -210,14 +341,17 @@ pub fn acceptable_exits(diffs: &[f64], tol: f64) -> Vec<usize> {
 
 /// Sequential LDBC CDLP: synchronous rounds; per vertex the multiset of neighbour labels (in- and
 /// out-neighbours, a mutual neighbour twice) is sorted and the longest run wins, the first (= smallest
-/// label) among equally long runs.
-pub fn cdlp_reference(g: &Graph, iters: usize) -> Vec<u64> {
+/// label) among equally long runs. Returns L_0 ..= L_k, k = `iters`, or less when L_k is a fixed point
+/// (further rounds change nothing, so L_j = L_k for every j > k). Nothing else ends the iteration: an
+/// oscillating labelling is followed to the last round.
+pub fn cdlp_reference_rounds(g: &Graph, iters: usize) -> Vec<Vec<u64>> {
     let n = g.n;
     let mut nbrs: Vec<Vec<usize>> = vec![vec![]; n];
     for &(u, v) in &g.edges { nbrs[u].push(v); nbrs[v].push(u); }
-    let mut labels = g.ids.clone();
+    let mut rounds = vec![g.ids.clone()];
     let mut seen: Vec<u64> = vec![];
     for _ in 0..iters {
+        let labels = rounds.last().unwrap();
         let mut next = labels.clone();
         for v in 0..n {
             if nbrs[v].is_empty() { continue; }
@@ -234,11 +368,14 @@ pub fn cdlp_reference(g: &Graph, iters: usize) -> Vec<u64> {
             }
             next[v] = best_label;
         }
-        if next == labels { break; } // fixed point: further rounds change nothing
-        labels = next;
+        if next == *labels { break; } // fixed point
+        rounds.push(next);
     }
-    labels
+    rounds
 }
+
+/// The labelling after `cap` rounds, given the rounds computed for some count >= cap.
+fn after(rounds: &[Vec<u64>], cap: usize) -> &Vec<u64> { &rounds[cap.min(rounds.len() - 1)] }
 
 fn rel_close(a: f64, b: f64) -> bool {
     a == b || (a - b).abs() <= REL * a.abs().max(b.abs())
@@ -266,29 +403,48 @@ pub fn check(case: &Case, pools: &[(usize, &rayon::ThreadPool)]) -> Outcome {
     let mut fp_all = 0u64;
 
     if case.kind == Kind::Cdlp {
-        let reference = cdlp_reference(g, case.iterations);
-        let mut first: Option<Vec<u64>> = None;
-        for (threads, pool) in pools {
-            let res = catch_unwind(AssertUnwindSafe(|| pool.install(|| cdlp(&view, &CdlpConfig { max_iterations: case.iterations }))));
-            let res = match res { Ok(r) => r, Err(e) => { add("cdlp-panic", format!("threads={threads} {}", panic_msg(e))); continue; } };
-            let mut got = vec![u64::MAX; g.n];
-            let mut missing = res.labels.len() != g.n;
-            for (id, l) in &res.labels { match g.index_of(*id) { Some(i) => got[i] = *l, None => missing = true } }
-            if missing { add("cdlp-missing-nodes", format!("threads={threads} result has {} entries for {} nodes", res.labels.len(), g.n)); }
-            if let Some(i) = (0..g.n).find(|&i| got[i] != reference[i]) {
-                let wrong = (0..g.n).filter(|&i| got[i] != reference[i]).count();
-                add("cdlp-mismatch", format!("threads={threads} n={} node index {i} (id {}) label {} expected {} ({wrong} nodes differ)", g.n, g.ids[i], got[i], reference[i]));
+        let max_cap = case.caps.iter().copied().max().unwrap_or(0);
+        let probed = !case.probe_rounds.is_empty() && (case.probe >= max_cap || case.probe_rounds.len() - 1 < case.probe);
+        let computed;
+        let rounds: &Vec<Vec<u64>> = if probed { &case.probe_rounds } else { computed = cdlp_reference_rounds(g, max_cap); &computed };
+        let fixed_point = rounds.len() - 1 < max_cap.max(if probed { case.probe } else { 0 });
+        // first round from which the labelling repeats with period 2 without being a fixed point
+        let osc_from = if fixed_point { None } else { (2..rounds.len()).find(|&k| rounds[k] == rounds[k - 2]) };
+        let course = if fixed_point { format!("fixed point after round {}", rounds.len() - 1) }
+            else if let Some(k) = osc_from { format!("no fixed point: period-2 oscillation from round {k} on") }
+            else { format!("no fixed point within {max_cap} rounds") };
+        for &cap in &case.caps {
+            let reference = after(&rounds, cap);
+            let mut first: Option<Vec<u64>> = None;
+            for (threads, pool) in pools {
+                let res = catch_unwind(AssertUnwindSafe(|| pool.install(|| cdlp(&view, &CdlpConfig { max_iterations: cap }))));
+                let res = match res { Ok(r) => r, Err(e) => { add("cdlp-panic", format!("threads={threads} max_iterations={cap} {}", panic_msg(e))); continue; } };
+                let mut got = vec![u64::MAX; g.n];
+                let mut missing = res.labels.len() != g.n;
+                for (id, l) in &res.labels { match g.index_of(*id) { Some(i) => got[i] = *l, None => missing = true } }
+                if missing { add("cdlp-missing-nodes", format!("threads={threads} result has {} entries for {} nodes", res.labels.len(), g.n)); }
+                if let Some(i) = (0..g.n).find(|&i| got[i] != reference[i]) {
+                    let wrong = (0..g.n).filter(|&i| got[i] != reference[i]).count();
+                    let at = format!("threads={threads} n={} shape={} max_iterations={cap} node index {i} (id {}) label {} expected {} ({wrong} nodes differ); sequential synchronous labelling: {course}", g.n, case.shape, g.ids[i], got[i], reference[i]);
+                    // the labelling of another round count: the propagation was right, the number of rounds was not
+                    // (an oscillating labelling equals many rounds: name the one the implementation reports, else the first)
+                    let same: Vec<usize> = (0..rounds.len()).filter(|&j| rounds[j] == got).collect();
+                    match same.iter().copied().find(|&j| j == res.iterations).or(same.first().copied()) {
+                        Some(j) => add("cdlp-wrong-round-count", format!("result is the synchronous labelling after {j} rounds (reported iterations={}), not after the configured {cap}: {at}", res.iterations)),
+                        None => add("cdlp-mismatch", at),
+                    }
+                }
+                match &first {
+                    None => first = Some(got.clone()),
+                    Some(f) => if *f != got { add("cdlp-schedule-dependent", format!("max_iterations={cap}: labels on {threads} threads differ from labels on {} thread(s)", pools[0].0)); }
+                }
+                let fp = got.iter().fold(0u64, |h, l| fnv(h, &l.to_le_bytes()));
+                fp_all = fnv(fp_all, &fp.to_le_bytes());
+                info.push_str(&format!(" c{cap}t{threads}:rounds={},fp={:08x}", res.iterations, fp as u32));
             }
-            match &first {
-                None => first = Some(got.clone()),
-                Some(f) => if *f != got { add("cdlp-schedule-dependent", format!("labels on {threads} threads differ from labels on 1 thread")); }
-            }
-            let fp = got.iter().fold(0u64, |h, l| fnv(h, &l.to_le_bytes()));
-            fp_all = fnv(fp_all, &fp.to_le_bytes());
-            info.push_str(&format!(" t{threads}:rounds={},fp={:08x}", res.iterations, fp as u32));
         }
-        let communities = { let mut l = reference.clone(); l.sort(); l.dedup(); l.len() };
-        info.push_str(&format!(" communities={communities}"));
+        let communities = { let mut l = after(&rounds, max_cap).clone(); l.sort(); l.dedup(); l.len() };
+        info.push_str(&format!(" communities={communities} course={}", if fixed_point { format!("fixed@{}", rounds.len() - 1) } else if let Some(k) = osc_from { format!("osc2@{k}") } else { "open".into() }));
     } else {
         let (iterates, diffs) = pr_reference(g, case.damping, case.dangling, case.iterations);
         let acceptable = acceptable_exits(&diffs, case.tolerance);
@@ -383,7 +539,7 @@ pub fn exhaustive(max_n: usize, pool: &rayon::ThreadPool) -> (u64, u64, Vec<Viol
                 graphs += 1;
                 for (kind, dangling, iters, tol) in [(Kind::PrCap, true, 3usize, 0.0), (Kind::PrCap, false, 2, 0.0), (Kind::PrTol, true, 12, 1e-3), (Kind::Cdlp, false, 4, 0.0)] {
                     if desc && kind != Kind::Cdlp { continue; }
-                    let case = Case { seed: mask, big: true, kind, g: Graph { n, ids: g.ids.clone(), edges: g.edges.clone(), base: 0, stride: 1, inv: vec![] }, damping: 0.85, dangling, iterations: iters, tolerance: tol, tol_note: "fixed".into(), shape: "exhaustive" };
+                    let case = Case { seed: mask, big: true, kind, g: Graph { n, ids: g.ids.clone(), edges: g.edges.clone(), base: 0, stride: 1, inv: vec![] }, damping: 0.85, dangling, iterations: iters, tolerance: tol, tol_note: "fixed".into(), shape: "exhaustive", caps: if kind == Kind::Cdlp { vec![iters, iters + 1] } else { vec![] }, probe: 0, probe_rounds: vec![] };
                     let out = check(&case, &[(1, pool)]);
                     evals += 1;
                     for mut v in out.violations {
